@@ -9,6 +9,7 @@ import (
 	"fmt"
 	"math"
 	"reflect"
+	"regexp"
 	"strconv"
 	"strings"
 	"time"
@@ -293,8 +294,18 @@ func (c *Ctx) tParse(s string) {
 		}
 		return "ok " + encInt(time.Time(rt).UnixMilli())
 	})
-	c.emit("tparse", []string{encStr(s)}, impl, "")
+	// "rejects others with an error": whatever is accepted has the shape date 'T' time [fraction] [Z | ±hh:mm] (read generously:
+	// one- or two-digit hour, '.' or ',' before the fraction — what Go's own RFC 3339 reader lets through); anything else accepted
+	// is a lexical form outside the documented ones
+	orc := ""
+	// (the empty text is how the zero instant is written — MarshalText of the zero value — and reads back as it)
+	if strings.HasPrefix(impl, "ok") && s != "" && !documentedInstantShape.MatchString(s) {
+		orc = fmt.Sprintf("key=c15-undocumented-form-accepted %q is not RFC 3339 (with or without zone or fraction) and was accepted", s)
+	}
+	c.emit("tparse", []string{encStr(s)}, impl, orc)
 }
+
+var documentedInstantShape = regexp.MustCompile(`^[0-9]{4}-[0-9]{2}-[0-9]{2}T[0-9]{1,2}:[0-9]{2}:[0-9]{2}([.,][0-9]+)?(Z|[+-][0-9]{2}:[0-9]{2})?$`)
 
 func (c *Ctx) genC15Instants() {
 	var ts []time.Time
